@@ -441,6 +441,8 @@ class Upstream:
         self.color = (0, 200, 0)
         self.calls = 0
         self.two = False      # cache with two sources (base + overlay): 'fail' makes only the overlay fail
+        self.partial = False  # 'fail' makes every second upstream call fail (a partial outage below a merged tile)
+        self.failed = 0
 
     def open(self, client, url, data=None, method=None):
         from mapproxy.client.http import HTTPClientError
@@ -448,7 +450,8 @@ class Upstream:
         from PIL import Image
         self.calls += 1
         overlay = '/overlay' in url
-        if self.mode == 'fail' and (overlay or not self.two):
+        if self.mode == 'fail' and (overlay or not self.two) and not (self.partial and self.calls % 2 == 1):
+            self.failed += 1
             raise HTTPClientError('upstream says 500', response_code=500)
         if self.mode == 'err':
             raise HTTPClientError('upstream says 404', response_code=404)
@@ -495,6 +498,9 @@ class App:
                 'caches': {'c1': {'grids': ['GLOBAL_MERCATOR'], 'sources': ['up'], 'cache': cache_conf}},
                 'sources': {'up': {'type': 'wms', 'req': {'url': 'http://up.invalid/s', 'layers': 'a'},
                                    'on_error': {500: {'response': '#ff0000', 'cache': False}}}}}
+        if (opts or {}).get('fill'):
+            # fill colour of the error handler, e.g. '#ffffff' = the background colour of an opaque merged image
+            conf['sources']['up']['on_error'][500]['response'] = opts['fill']
         if link:
             conf['caches']['c1']['link_single_color_images'] = True if link == 'symlink' else link
         opts = opts or {}
@@ -520,6 +526,17 @@ class App:
             conf['caches']['low'] = {'grids': ['GLOBAL_GEODETIC' if self.cascade == 'srs' else 'lowgrid'], 'sources': ['up'],
                                      'meta_size': [m, m], 'meta_buffer': 0, 'cache': {'type': 'file'}}
             conf['caches']['c1']['sources'] = ['low']
+        self.passthrough = opts.get('passthrough')
+        if self.passthrough:
+            # the cache of the layer stores nothing (disable_storage) and is built on a storing cache with the same grid and
+            # format (tiled_only access, tile by tile): the validators are those of the tile stored in the LOWER cache
+            # (CacheInfo travels with the image); 'watermark': the upper cache draws on the image (other bytes than stored)
+            conf['caches']['low'] = {'grids': ['GLOBAL_MERCATOR'], 'sources': ['up'], 'meta_size': [meta, meta],
+                                     'meta_buffer': 0, 'cache': cache_conf}
+            conf['caches']['c1'] = {'grids': ['GLOBAL_MERCATOR'], 'sources': ['low'], 'disable_storage': True,
+                                    'meta_size': [1, 1], 'meta_buffer': 0}
+            if self.passthrough == 'watermark':
+                conf['caches']['c1']['watermark'] = {'text': 'wm', 'opacity': 40}
         self.bulk = bool(opts.get('bulk'))
         if self.bulk:
             # bulk_meta_tiles (only for tile sources): the tiles of a meta tile are fetched one by one
@@ -555,6 +572,9 @@ class App:
         self.app = TestApp(self.wsgi)
         layers = self.wsgi.handlers['tms'].layers
         self.tm = list(layers.values())[0].tile_manager
+        if self.passthrough:
+            # "the tile as currently stored" lives in the lower cache: observe / rewrite / remove act on that one
+            self.tm = self.tm.sources[0].tile_manager
         self.grid = self.tm.grid
 
     def url(self, svc, key):
@@ -777,6 +797,7 @@ class History:
         before = dict(self.store)
         pre = before[key]
         cut = key in self.app.cut_keys          # authorization limits the answer to a part of this tile (masked image)
+        cut = cut or self.app.passthrough == 'watermark'     # (or the storage-less upper cache draws a watermark on it)
         self.up.mode = mode
         self.clock.now = float(now)
         headers = {}
@@ -785,6 +806,7 @@ class History:
         if ims is not None:
             headers['If-Modified-Since'] = ims
         calls0 = self.up.calls
+        failed0 = self.up.failed
         linked_existing = bool(self.app.link and mode == 'ok' and pre is None
                                and os.path.exists(self.app.color_file(self.up.color)))
         stale = self.app.is_stale(pre)
@@ -850,6 +872,9 @@ class History:
         asked = self.up.calls - calls0
         if self.app.cascade and mode in ('fail', 'err') and asked == 0:
             # cascaded caches: the lower cache had all its tiles, the failing upstream was not needed: an ordinary creation
+            mode = 'ok'
+        if self.up.partial and mode == 'fail' and self.up.failed == failed0:
+            # partial outage: none of the upstream calls of this request was among the failing ones
             mode = 'ok'
         after = self.observe_all()
         self.store = after
@@ -1152,6 +1177,7 @@ def run_history(ctx, cache_type, meta, hours, nsteps, up, clock, script=None, li
         label += ',' + ','.join(sorted(k for k in opts if opts[k]))
     app = App(ctx, cache_type, meta, hours, link, refresh, two, auth, opts)
     up.two = two
+    up.partial = bool((opts or {}).get('partial'))
     hist = History(ctx, app, up, clock, label)
     if script is not None:
         run_script(ctx, hist, up, script)
@@ -1249,7 +1275,7 @@ def run_history(ctx, cache_type, meta, hours, nsteps, up, clock, script=None, li
             # two overlapping requests for the stale tile: this one waits for the lock while the other refreshes it
             overlap = (rng.choice(SERVICES), rng.choice(colors), 'lock')
             ctx.count('app:schedule=overlap')
-        elif pre is None and mode == 'ok' and not auth and not link and not (opts or {}).get('cascade') and rng.random() < 0.3:
+        elif pre is None and mode == 'ok' and not auth and not link and not (opts or {}).get('cascade') and not (opts or {}).get('passthrough') and rng.random() < 0.3:
             # two overlapping requests for a missing tile: the other one creates it after this one looked for it
             # ('load') or while this one waits for the tile lock ('lock')
             overlap = (rng.choice(SERVICES), up.color, rng.choice(['lock', 'load']))
@@ -1293,7 +1319,7 @@ def run_merged_wmsc(ctx, up, clock):
     app = TestApp(wsgi)
     layers = wsgi.handlers['tms'].layers
     tms = {name.split('_')[0]: tl.tile_manager for name, tl in layers.items()}
-    up.two, up.mode = False, 'ok'
+    up.two, up.mode, up.partial = False, 'ok', False
     terms, descr = [], []
     bodies = {}
     for it in range(ctx.n(6, 40)):
